@@ -94,6 +94,12 @@ def generate(g, tier):
             else:
                 t, pr = f'REPEAT 2\n    PRINT a {ch} b\nSTRING typed\nPRINT last', [[f'a {ch} b', 2, None], [f'a {ch} b', 2, None], ['last', 4, None]]
             cases.append(dict(op='compile', src=dict(text=t), meta=dict(family='separator-chars', exp=['ok', ['STRING typed'], pr, {}], nocorr=True)))
+    # an entry file opened through a symbolic link into another folder: imports are relative to the folder it was opened in
+    for kw in ('START', 'STARTENV', 'STARTCODE'):
+        files = {'shared/entry.txt': f'PRINT top\n{kw} helper\nPRINT bottom', 'shared/helper.txt': 'PRINT shared helper\nSTRING from-shared', 'proj/helper.txt': 'PRINT project helper\nSTRING from-proj'}
+        out = [] if kw == 'STARTENV' else ['STRING from-proj']
+        cases.append(dict(op='compile_file', file='proj/main.txt', files=files, symlinks={'proj/main.txt': 'shared/entry.txt'},
+                          meta=dict(family='symlinked-entry', exp=['ok', out, [['top', 1, None], ['project helper', 1, None], ['bottom', 3, None]], None], nocorr=True)))
     for _ in range(count(tier, 100, 600)):
         # grouped and empty prints, inside a function called in a loop
         lines = ['FUNC show p', '    $PRINT p', '    PRINT', '        one', '        two', '    $PRINT', '        ""', '        "x"+p',
